@@ -40,9 +40,12 @@ CHECKS = {
    note=TB + "Cls.lookup abstracts the engine's binary search; class references denote the final value of the referenced class (late binding).",
    design="4/C04"),
  "C07": dict(
-   technique="Lean 4 spec (tree of optional groups) and model (the compiler's range algorithm) compared per rule, theorems on reference renumbering; alternatives certified against the real font through the C02/C06/C04 machinery",
-   text=("Proof (partial): Opt.newIndex_count / newIndex_none (in an alternative, a reference to a kept item becomes 1 + the number of kept items before it; an omitted item has no new index), "
-         "spec_single_optional. The full statement model = spec for all trees is NOT yet proved; it is checked for every generated rule (up to repeated alternatives, which can never fire). "
+   technique="Lean 4 spec (tree of optional groups) and model (the compiler's range algorithm) proved equal for all well-formed trees, theorems on reference renumbering; alternatives certified against the real font through the C02/C06/C04 machinery",
+   text=("Proof: Opt.model_eq_spec_any_order - for EVERY well-formed tree of optional groups (any depth, any number of groups and items; well-formed = every group holds an item and is not merely another group in brackets) "
+         "and every order in which its ranges are listed, the model of the compiler's algorithm (exchange sort of the ranges = Opt.exchangeSort_perm/_sorted/_unique, removal of duplicates, overlap test, the include-then-omit recursion with PrevRangeSubsumes, "
+         "the items left by each flag assignment, the empty version dropped) yields exactly the documented alternatives, in the documented order and multiplicity; Opt.wfB_sound (the driver's executable test implies the hypothesis); "
+         "Opt.newIndex_count / newIndex_none (in an alternative, a reference to a kept item becomes 1 + the number of kept items before it; an omitted item has no new index). "
+         "Trees outside the hypothesis (a group in a second pair of brackets) are compared per rule, up to repeated alternatives, which can never fire. "
          "Tie: the driver replaces every rule with optional items by its alternatives and requires of the real font: rule count and order, the FSM of every alternative certified for all glyph "
          "strings (C02 theorem), sort keys / pre-contexts / start states (C06), substitution classes and @n / association offsets still denoting the same original item (C04 + offset model); "
          "programs in which some alternative refers to an omitted item must be rejected with error 1103."),
